@@ -717,7 +717,7 @@ def run(res, tier, seed):
         "four fifths of the uploads call importCSV/importParquet in-package; one fifth go through the real handleCSVImport/handleParquetImport (multipart form, query options, importPreamble) on ONE reused fasthttp.RequestCtx with max_buffer_size=1 and a held flush worker, the next request overwriting the connection buffers before the flush builds the storage path - the model has value semantics: rows must be found under the request's own database/measurement and nowhere else; RBAC and the size limit are not exercised",
     ]
 
-    n, m = (280, 110) if tier == "quick" else (6000, 2500)
+    n, m = (260, 100) if tier == "quick" else (6000, 2500)
     t1 = time.time()
     fixed = witness_cases() + pq_witness_cases() + corpus_cases()
     cases = fixed + [gen_csv(rng, i) for i in range(n)] + [gen_pq(rng, n + i) for i in range(m)]
